@@ -152,14 +152,16 @@ Record dataset := mkds {
   d_world : list cid;       (* _world_component_ids *)
   d_int : list link;        (* Data.coordinate_links: the pixel<->world CoordinateComponentLinks *)
   d_der : list link;        (* Data.derived_links: one link per internal derived component, l_to = the derived attribute *)
+  d_dinv : list link;       (* the `.inverse` of every link of d_der that declares an inverse function (round 5):
+                               LinkManager._inverse_links inverts the dataset-internal links too *)
   d_tbl : table             (* _externally_derivable_components *)
 }.
 
 (* Data.components: main + coordinate + derived *)
 Definition der_cids (d : dataset) : list cid := map l_to (d_der d).
 Definition comps (d : dataset) : list cid := d_own d ++ der_cids d.
-(* Data.links *)
-Definition ds_links (d : dataset) : list link := d_int d ++ d_der d.
+(* Data.links, and the inverses LinkManager._inverse_links builds from them (coordinate links declare none) *)
+Definition ds_links (d : dataset) : list link := d_int d ++ d_der d ++ d_dinv d.
 
 (* Data.get_data on a dataset: its own components first - a derived one is computed by its own link from the
    dataset's attributes - then the externally derivable ones through the table (whose inputs are read the same way) *)
@@ -202,7 +204,7 @@ Definition entry_touches (c : cid) (e : entry) : bool := existsb (fun p => link_
 Definition entry_touches_any (cs : list cid) (e : entry) : bool := existsb (fun c => entry_touches c e) cs.
 
 Definition set_tbl (d : dataset) (t : table) : dataset :=
-  mkds (d_id d) (d_member d) (d_hub d) (d_n d) (d_own d) (d_coord d) (d_world d) (d_int d) (d_der d) t.
+  mkds (d_id d) (d_member d) (d_hub d) (d_n d) (d_own d) (d_coord d) (d_world d) (d_int d) (d_der d) (d_dinv d) t.
 
 Definition disc (own : list cid) (links : list link) : table * bool :=
   match discover own links with Some t => (t, false) | None => ([], true) end.
@@ -268,6 +270,9 @@ Definition removed_cids (cs : list cid) (d : dataset) : list cid :=
   cs ++ map l_to (filter (der_hit cs) (d_der d)).
 Definition keep_der (cs : list cid) (d : dataset) : list link :=
   filter (fun l => negb (der_hit cs l)) (d_der d).
+(* the inverse of a derived component's link lives and dies with the link (it mentions the same two attributes) *)
+Definition keep_dinv (cs : list cid) (d : dataset) : list link :=
+  filter (fun l => negb (der_hit cs l)) (d_dinv d).
 
 (* the hub handlers _component_removed / _data_removed: drop every external link that mentions one of cs,
    each through remove_link(link) whose default update_external=True recomputes even inside a delay block *)
@@ -277,7 +282,7 @@ Definition drop_links (cs : list cid) (s : state) : state :=
 
 Inductive op :=
 | AddLink (e : entry) | RemoveLink (i : Z) | SetLinks (es : list entry)
-| AddComponent (d : Z) (c : cid) | RemoveComponent (d : Z) (c : cid) | AddDerived (d : Z) (l : link)
+| AddComponent (d : Z) (c : cid) | RemoveComponent (d : Z) (c : cid) | AddDerived (d : Z) (l : link) (og : option fn)
 | AddData (d : Z) | RemoveData (d : Z) | SetCoordsNone (d : Z)
 | DelayBegin | DelayEnd.
 
@@ -299,7 +304,7 @@ Definition step (s : state) (o : op) : state * Z :=
     | Some d =>
       if mem c (comps d) || negb (fst c =? i) then (s, 3)
       else
-        let d' := mkds (d_id d) (d_member d) (d_hub d) (d_n d) (d_own d ++ [c]) (d_coord d) (d_world d) (d_int d) (d_der d) (d_tbl d) in
+        let d' := mkds (d_id d) (d_member d) (d_hub d) (d_n d) (d_own d ++ [c]) (d_coord d) (d_world d) (d_int d) (d_der d) (d_dinv d) (d_tbl d) in
         let s1 := set_data s (put_ds d' (s_data s)) in
         (* ComponentsChangedMessage -> _sync_link_manager, filtered on sender in dc._data *)
         (if d_hub d && d_member d then sync s1 else s1, 0)
@@ -311,15 +316,16 @@ Definition step (s : state) (o : op) : state * Z :=
       if negb (mem c (comps d)) then (s, 3)
       else
         let d' := mkds (d_id d) (d_member d) (d_hub d) (d_n d) (remove_cids [c] (d_own d)) (d_coord d) (d_world d) (d_int d)
-                       (keep_der [c] d) (d_tbl d) in
+                       (keep_der [c] d) (keep_dinv [c] d) (d_tbl d) in
         let s1 := set_data s (put_ds d' (s_data s)) in
         if d_hub d then
           let s2 := drop_links (removed_cids [c] d) s1 in     (* one DataRemoveComponentMessage per removed attribute *)
           (if d_member d then sync s2 else s2, 0)              (* ComponentsChangedMessage *)
         else (s1, 0)
     end
-  | AddDerived i l =>
-    (* Data.add_component_link for y = f(own attributes): y becomes a component, its link joins Data.links *)
+  | AddDerived i l og =>
+    (* Data.add_component_link for y = f(own attributes): y becomes a component, its link joins Data.links; when the link
+       declares an inverse function (og = Some g, single input) its `.inverse` joins the links in force as well *)
     match find_ds i (s_data s) with
     | None => (s, 3)
     | Some d =>
@@ -327,7 +333,8 @@ Definition step (s : state) (o : op) : state * Z :=
          || match l_from l with [] => true | _ => false end
          || negb (forallb (fun f => mem f (d_own d)) (l_from l)) then (s, 3)
       else
-        let d' := mkds (d_id d) (d_member d) (d_hub d) (d_n d) (d_own d) (d_coord d) (d_world d) (d_int d) (d_der d ++ [l]) (d_tbl d) in
+        let d' := mkds (d_id d) (d_member d) (d_hub d) (d_n d) (d_own d) (d_coord d) (d_world d) (d_int d) (d_der d ++ [l])
+                       (d_dinv d ++ inv_links l og) (d_tbl d) in
         let s1 := set_data s (put_ds d' (s_data s)) in
         (if d_hub d && d_member d then sync s1 else s1, 0)
     end
@@ -337,7 +344,7 @@ Definition step (s : state) (o : op) : state * Z :=
     | Some d =>
       if d_member d then (s, 3)
       else
-        let d' := mkds (d_id d) true true (d_n d) (d_own d) (d_coord d) (d_world d) (d_int d) (d_der d) (d_tbl d) in
+        let d' := mkds (d_id d) true true (d_n d) (d_own d) (d_coord d) (d_world d) (d_int d) (d_der d) (d_dinv d) (d_tbl d) in
         (sync (set_data s (put_ds d' (s_data s))), 0)
     end
   | RemoveData i =>
@@ -346,7 +353,7 @@ Definition step (s : state) (o : op) : state * Z :=
     | Some d =>
       if negb (d_member d) then (s, 3)
       else
-        let d' := mkds (d_id d) false (d_hub d) (d_n d) (d_own d) (d_coord d) (d_world d) (d_int d) (d_der d) (d_tbl d) in
+        let d' := mkds (d_id d) false (d_hub d) (d_n d) (d_own d) (d_coord d) (d_world d) (d_int d) (d_der d) (d_dinv d) (d_tbl d) in
         (drop_links (comps d) (set_data s (put_ds d' (s_data s))), 0)     (* DataCollectionDeleteMessage: msg.data.components *)
     end
   | SetCoordsNone i =>
@@ -358,7 +365,7 @@ Definition step (s : state) (o : op) : state * Z :=
       | w =>
         (* _update_world_components: world components removed, pixel<->world links dropped (repaired code) *)
         let d' := mkds (d_id d) (d_member d) (d_hub d) (d_n d) (remove_cids w (d_own d)) (remove_cids w (d_coord d)) [] []
-                       (keep_der w d) (d_tbl d) in
+                       (keep_der w d) (keep_dinv w d) (d_tbl d) in
         let s1 := set_data s (put_ds d' (s_data s)) in
         if d_hub d then
           let s2 := drop_links (removed_cids w d) s1 in
@@ -396,7 +403,8 @@ Definition dec_entry (t : tree) : entry :=
 Definition dec_ds (t : tree) : dataset :=
   let m := negb (tag (kid 0 t) =? 0) in
   mkds (tag t) m m (tag (kid 1 t)) (dec_cids (kid 2 t)) (dec_cids (kid 3 t)) (dec_cids (kid 4 t))
-       (map dec_link (kids (kid 5 t))) (map dec_link (kids (kid 6 t))) [].
+       (map dec_link (kids (kid 5 t))) (map (fun p => fst (dec_sublink p)) (kids (kid 6 t)))
+       (flat_map (fun p => inv_links (fst (dec_sublink p)) (snd (dec_sublink p))) (kids (kid 6 t))) [].
 Definition dec_op (t : tree) : op :=
   match t with
   | T 1 (e :: _) => AddLink (dec_entry e)
@@ -408,7 +416,7 @@ Definition dec_op (t : tree) : op :=
   | T 7 (T d _ :: _) => RemoveData d
   | T 8 (T d _ :: _) => SetCoordsNone d
   | T 9 _ => DelayBegin
-  | T 11 (T d _ :: l :: _) => AddDerived d (dec_link l)
+  | T 11 (T d _ :: p :: _) => AddDerived d (fst (dec_sublink p)) (snd (dec_sublink p))
   | _ => DelayEnd
   end.
 
@@ -597,7 +605,9 @@ Definition ds_wf (d : dataset) : Prop :=
   (forall c, In c (comps d) -> fst c = d_id d) /\
   incl (d_coord d) (d_own d) /\
   (forall l, In l (d_int d) -> l_from l <> [] /\ incl (l_from l) (d_coord d) /\ In (l_to l) (d_coord d)) /\
-  (forall l, In l (d_der d) -> l_from l <> [] /\ incl (l_from l) (d_own d)) /\
+  ((forall l, In l (d_der d) -> l_from l <> [] /\ incl (l_from l) (d_own d)) /\
+   (* every stored inverse is the reversal of one of the dataset's single-input derived-component links *)
+   (forall l, In l (d_dinv d) -> exists l', In l' (d_der d) /\ l_from l' = [l_to l] /\ l_from l = [l_to l'])) /\
   (d_member d = true -> d_hub d = true).
 
 (* c is an attribute (main, coordinate or derived) of a dataset that is in the collection *)
